@@ -128,11 +128,11 @@ Print Assumptions C02_fixpoint_text_calm.
 
 Theorem C02_calm_line :
   forall (ctx : titles) (dir : string) (o : opts) (l : list inline),
-         forallb (calm ctx o) l = true -> line_md_stable ctx dir o l = true.
+         forallb (calm ctx dir o) l = true -> line_md_stable ctx dir o l = true.
 Proof. exact ReparseCalm.calm_line. Qed.
 Check C02_calm_line :
   forall (ctx : titles) (dir : string) (o : opts) (l : list inline),
-         forallb (calm ctx o) l = true -> line_md_stable ctx dir o l = true.
+         forallb (calm ctx dir o) l = true -> line_md_stable ctx dir o l = true.
 Print Assumptions C02_calm_line.
 
 Theorem C02_settled_fixed :
@@ -236,3 +236,23 @@ Example C02_fixpoint_headless_nonvacuous :
   rr ex_opts ex2_written = ex2_blocks /\
   project (key_parent ex_key) (tmap (norm_node ex_ctx) (spec_tree ex_key (rr ex_opts ex2_written))) = ex2_written.
 Proof. split; [apply ex2_in_class | split; [apply ex2_in_class | split; [exact ex2_rr | exact ex2_fixpoint]]]. Qed.
+
+(* the clause of [calm] about note links holds of every url the projector writes (inline links are kept by key and
+   written relative to the note since the repair of F-INLINEDIR): written with `.md` or no extension it is read
+   back, from the note's directory, as the same key, which is written as the same url again *)
+Theorem C02_key_kept_written :
+  forall (dir u ext : string),
+    ext = MD \/ ext = "" ->
+    let K := from_rel_link_url u dir in
+    let url := to_rel_link_url K dir in
+    is_ref_url (ref_url url ext) = true -> is_ref_url K = true ->
+    key_kept dir (ref_url url ext) url = true.
+Proof. exact ReparseCalm.key_kept_written. Qed.
+Check C02_key_kept_written :
+  forall (dir u ext : string),
+    ext = MD \/ ext = "" ->
+    let K := from_rel_link_url u dir in
+    let url := to_rel_link_url K dir in
+    is_ref_url (ref_url url ext) = true -> is_ref_url K = true ->
+    key_kept dir (ref_url url ext) url = true.
+Print Assumptions C02_key_kept_written.
